@@ -1,5 +1,7 @@
 import SFV.Lemmas.ProvGraph
 import SFV.Lemmas.ProvFuel
+import SFV.Lemmas.Avail
+import SFV.Gen.AvailGuards
 /-! # C18 — recovery re-runs only failed jobs and producers of lost data
 
 Theorems about the model of `ProvenanceGraph.build_graph` (`SFV/Model/ProvGraph.lean`): the set of tokens the recovery
@@ -113,6 +115,41 @@ theorem self_dependency_needs_more_fuel :
 example : (match buildGraph ⟨fun t => match t with | 4 => [2, 3] | 2 => [1] | 3 => [0] | 1 => [0] | _ => [],
                              fun t => t == 1 || t == 3 || t == 0⟩ 5 [4] with
     | .ok s => s.nodes == [4, 2, 3, 1] | _ => false) = true := by decide
+
+/-! ## what "available" means (model `SFV/Model/Avail.lean`, quantifiers generated from the source) -/
+
+/-- **T**: `FileToken.is_available` asks for SOME surviving copy of each path, `ListToken` / `ObjectToken` for EVERY element -/
+theorem gen_avail_quantifiers : Gen.availCfg = Avail.codeCfg := rfl
+
+/-- **available ⇔ nothing is lost**: with the repository's quantifiers a token (plain, file, list or record, nested at will) is
+    available iff every leaf is recoverable and every path of every file in it has at least one surviving primary copy -/
+theorem available_iff_every_leaf_survives (t : Avail.Tok) : Avail.avail Gen.availCfg t = true ↔ Avail.Good t := by
+  rw [gen_avail_quantifiers]; exact Avail.avail_iff t
+
+/-- the two models together: run `build_graph` with `stop` = "another recovery re-runs this job" or "available" (availability
+    model, generated quantifiers): every token of the result either is being recovered / has all its data, or all its dependees
+    are in the result with their edges -/
+theorem graph_nodes_survive_or_are_regenerated (tok : Nat → Avail.Tok) (recovering : Nat → Bool) (deps : Nat → List Nat)
+    (inputs : List Nat) (fuel : Nat) (s : BSt)
+    (h : buildGraph ⟨deps, fun t => recovering t || Avail.avail Gen.availCfg (tok t)⟩ fuel inputs = .ok s) (t : Nat) (ht : t ∈ s.nodes) :
+    (recovering t = true ∨ Avail.Good (tok t)) ∨ (deps t ≠ [] ∧ ∀ p, p ∈ deps t → p ∈ s.nodes ∧ (p, t) ∈ s.edges) := by
+  rcases sources_available _ inputs fuel s h t ht with h1 | h1
+  · left
+    simp only [Bool.or_eq_true] at h1
+    exact h1.imp id (available_iff_every_leaf_survives (tok t)).mp
+  · exact Or.inr h1
+
+/-- each quantifier matters (the two classes of edits seen in the seeded changes): with `all` over the copies a surviving replica
+    is ignored (the producer is re-run although its data exists); with `any` over the fields of a record a partial loss is missed
+    (the producer is NOT re-run although part of its output is gone) -/
+theorem wrong_quantifiers_false :
+    (Avail.avail Avail.codeCfg (.file true [[false, true]]) = true ∧ Avail.avail ⟨.all, .all, .all⟩ (.file true [[false, true]]) = false) ∧
+    (Avail.avail Avail.codeCfg (.record [.file true [[true]], .file true [[false]]]) = false ∧
+     Avail.avail ⟨.any, .all, .any⟩ (.record [.file true [[true]], .file true [[false]]]) = true) := by decide
+
+/-- non-vacuity: a record holding a list of two replicated files and a plain value, one copy of each file lost: available -/
+example : Avail.avail Gen.availCfg (.record [.list [.file true [[true, false]], .file true [[false, true]]], .plain true]) = true := by
+  decide
 
 /-! ### non-vacuity: a diamond with one lost branch -/
 
